@@ -31,20 +31,34 @@ def clip (total : Nat) (rs : List (Nat × Nat)) : Option (List (Nat × Nat)) :=
 
 def sliceIncl (B : Bytes) (r : Nat × Nat) : Bytes := (B.drop r.1).take (r.2 - r.1 + 1)
 
+/-- the header of one part of a multipart body (what precedes its CRLFCRLF) -/
+def partHdr (n total : Nat) (r : Nat × Nat) : Bytes :=
+  asciiBytes "\r\n--" ++ boundary n ++ asciiBytes "\r\nContent-Type: application/octet-stream\r\n" ++
+  asciiBytes s!"Content-Range: bytes {r.1}-{r.2}/{total}"
+
+def crlf2 : Bytes := [13, 10, 13, 10]
+
+/-- the closing delimiter -/
+def closing (n : Nat) : Bytes := asciiBytes "\r\n--" ++ boundary n ++ asciiBytes "--\r\n"
+
+/-- the header lines of a multipart response whose body has `len` bytes -/
+def mpLines (n len : Nat) : List Bytes :=
+  [asciiBytes "HTTP/1.1 206 Partial Content\r\n",
+   asciiBytes "Content-Type: multipart/byteranges; boundary=" ++ boundary n ++ asciiBytes "\r\n",
+   asciiBytes s!"Content-Length: {len}\r\n", asciiBytes "\r\n"]
+
+/-- the header lines of a single-range response -/
+def singleLines (total : Nat) (r : Nat × Nat) : List Bytes :=
+  [asciiBytes "HTTP/1.1 206 Partial Content\r\n", asciiBytes "Content-Type: application/octet-stream\r\n",
+   asciiBytes s!"Content-Range: bytes {r.1}-{r.2}/{total}\r\n", asciiBytes "\r\n"]
+
 /-- response header lines and body for the (clipped) ranges -/
 def respond (n : Nat) (B : Bytes) (rs : List (Nat × Nat)) : List Bytes × Bytes :=
   match rs with
-  | [r] =>
-    ([asciiBytes "HTTP/1.1 206 Partial Content\r\n", asciiBytes "Content-Type: application/octet-stream\r\n",
-      asciiBytes s!"Content-Range: bytes {r.1}-{r.2}/{B.length}\r\n", asciiBytes "\r\n"], sliceIncl B r)
+  | [r] => (singleLines B.length r, sliceIncl B r)
   | _ =>
-    let part (r : Nat × Nat) : Bytes :=
-      asciiBytes "\r\n--" ++ boundary n ++ asciiBytes "\r\nContent-Type: application/octet-stream\r\n" ++
-      asciiBytes s!"Content-Range: bytes {r.1}-{r.2}/{B.length}\r\n\r\n" ++ sliceIncl B r
-    let body := (rs.map part).flatten ++ asciiBytes "\r\n--" ++ boundary n ++ asciiBytes "--\r\n"
-    ([asciiBytes "HTTP/1.1 206 Partial Content\r\n",
-      asciiBytes "Content-Type: multipart/byteranges; boundary=" ++ boundary n ++ asciiBytes "\r\n",
-      asciiBytes s!"Content-Length: {body.length}\r\n", asciiBytes "\r\n"], body)
+    let body := (rs.map fun r => partHdr n B.length r ++ crlf2 ++ sliceIncl B r).flatten ++ closing n
+    (mpLines n body.length, body)
 
 /-- pieces of `n` bytes (`n = 0`: one piece); no empty pieces -/
 def pieces (n : Nat) (b : Bytes) : List Bytes :=
